@@ -6,7 +6,7 @@
         -> auth=<hex> anon=<0|1> writable=<0|1> verifyW=<0|1|-> upSkip=<0|1|-> compressed=<0|1|-> storeU=<0|1|->
     so.glob pat=<hex> name=<hex>                      -> true | false | bad | nonascii
     so.locmatch scheme=<n|err> cwd=<hex> pat=<hex> loc=<hex>   -> 1 | 0 | unsupported
-    so.store scheme=<n|err> sname=<hex> cwd=<hex> loc=<hex> ents=<hexpattern:sv:unc:retry|->;… skip=<0|1> retry=<n|-> n=<n>
+    so.store scheme=<n|err> sname=<hex> cwd=<hex> loc=<hex> ents=<hexpattern:sv:unc:retry|->;… skip=<0|1> retry=<n|-> n=<n> ti=<0|1>
         -> err=parse | err=multiple | unsupported | ok backend=<b> sv=<0|1> unc=<0|1> retry=<n> n=<n> layers=<k>
     so.index loc=<hex> scheme=<n|err> sname=<hex> upath=<hex>
         -> err=parse | key=<hex> backend=<b> name=<hex> dir=<hex>
@@ -112,7 +112,7 @@ def cmdStore (a : KV) : String :=
         let cmd : CmdStoreOptions :=
           { n := (get a "n").toNat?.getD 0, clientCert := "", clientKey := "", caCert := "", skipVerify := get a "skip" == "1",
             errorRetry := (get a "retry").toNat?.getD 0, errorRetryBaseInterval := 0,
-            chClientCert := false, chClientKey := false, chCaCert := false, chTrustInsecure := false,
+            chClientCert := false, chClientKey := false, chCaCert := false, chTrustInsecure := get a "ti" == "1",
             chErrorRetry := (get a "retry").toNat?.isSome, chErrorRetryBaseInterval := false }
         match storeOptionsFor (fun p => locationMatch (some n) cwd p loc == some true) es cmd with
         | none => "err=multiple"
